@@ -329,8 +329,6 @@ def _key_split_rule(ctx, prog):
             lo = 0 if lo is None or lo == ("const", None) else (lo[1] if lo[0] == "const" and isinstance(lo[1], int) else None)
             hi = vals[2][2]
             hi = None if hi is None or hi == ("const", None) else (hi[1] if hi[0] == "const" and isinstance(hi[1], int) else "?")
-            if hi is not None and hi != "?" and lo is not None and len(vals[2]) >= 3 and hi == ("unop",):
-                hi = "?"
             if vals[2][2] is not None and vals[2][2][0] == "unop" and vals[2][2][1] == "-" and vals[2][2][2][0] == "const":
                 hi = -vals[2][2][2][1]
             if lo is not None and hi != "?" and (len(vals[2]) < 4 or vals[2][3] in (None, ("const", None))):
